@@ -161,23 +161,36 @@ func (server *httpServer) handleHttpRequest(conn net.Conn) string {
 		return 0, nil, nil
 	})
 
+	var getRequest *getParams
+	get := func(params getParams) string {
+		response := server.getHandler(params)
+		if len(response) > 0 {
+			return good(response)
+		}
+		return answer(httpUnavailable+jsonContentType, `{"error":"timeout"}`)
+	}
+Loop:
 	for scanner.Scan() {
 		text := scanner.Text()
 		switch section {
 		case 0:
 			getMatch := getRegex.FindStringSubmatch(text)
 			if len(getMatch) > 0 {
-				response := server.getHandler(parseGetParams(getMatch[1]))
-				if len(response) > 0 {
-					return good(response)
+				params := parseGetParams(getMatch[1])
+				if len(server.apiKey) == 0 {
+					return get(params)
 				}
-				return answer(httpUnavailable+jsonContentType, `{"error":"timeout"}`)
+				// We need to see the headers to check the API key
+				getRequest = &params
 			} else if !strings.HasPrefix(text, "POST / HTTP") {
 				return bad("invalid request method")
 			}
 			section++
 		case 1:
 			if text == crlf {
+				if getRequest != nil {
+					break Loop
+				}
 				if contentLength == 0 {
 					return bad("content-length header missing")
 				}
@@ -204,6 +217,10 @@ func (server *httpServer) handleHttpRequest(conn net.Conn) string {
 
 	if len(server.apiKey) != 0 && subtle.ConstantTimeCompare([]byte(apiKey), server.apiKey) != 1 {
 		return unauthorized("invalid api key")
+	}
+
+	if getRequest != nil {
+		return get(*getRequest)
 	}
 
 	if len(body) < contentLength {
